@@ -91,6 +91,31 @@ Section Storage.
           if list_eqb h stored then (set_next st1 nxt stored, RChunk (slice f (off + hdr_size) s))
           else (st1, RErr EHash).
 
+  (* ReadNext with Go's slice-bounds semantics on the scratch buffer made explicit.  [guard] = the hard-limit test
+     `s > ChunkSize` is present (the code as it is).  None = runtime panic "slice bounds out of range":
+     currentChunk = scratch[16:] has capacity 8 + ChunkSize + 16 and is sliced to [:8+s+16]. *)
+  Definition scratch_cap : Z := hash_size + hdr_size + ChunkSize + hash_size.
+  Definition read_next_b (guard : bool) (magic : Z) (st : cstate) : option (cstate * rres) :=
+    if negb (s_reading st) then Some (st, REnd) else
+    let st1 := set_pos st in
+    let off := s_off st1 in
+    let f := s_file st1 in
+    if off =? s_size st1 then Some (set_reading st1 false, REnd)
+    else if s_size st1 <? off + hdr_size + hash_size then Some (st1, RErr EHdrOverflow)
+    else if negb (le_val (slice f off 4) =? magic) then Some (st1, RErr EMagic)
+    else
+      let s := le_val (slice f (off + 4) 4) in
+      if guard && (ChunkSize <? s) then Some (st1, RErr EBodyLimit)
+      else
+        let nxt := off + hdr_size + s + hash_size in
+        if s_size st1 <? nxt then Some (st1, RErr EBodyOverflow)
+        else if scratch_cap <? hash_size + hdr_size + s + hash_size then None
+        else
+          let stored := slice f (off + hdr_size + s) hash_size in
+          let h := H (s_hash st1 ++ slice f off (hdr_size + s)) in
+          if list_eqb h stored then Some (set_next st1 nxt stored, RChunk (slice f (off + hdr_size) s))
+          else Some (st1, RErr EHash).
+
   (* the loop every caller runs: ReadNext until an error or an empty chunk *)
   Fixpoint read_all (fuel : nat) (magic : Z) (st : cstate) : cstate * list bytes * rres :=
     match fuel with
